@@ -29,6 +29,7 @@ fn main() {
         "C03" => props::core::c03(),
         "C04" => props::core::c04(),
         "C05" => props::recovery::c05(),
+        "C06" => props::spectator::c06(),
         "C07" => props::drop::c07(),
         "C12" => props::lifecycle_check::c12(),
         "C13" => props::synctest::c13(),
